@@ -21,6 +21,7 @@ INVARIANT FilesArrive
 INVARIANT DstOnlyUntouched
 INVARIANT SrcUntouched
 INVARIANT Idempotent
+INVARIANT NothingElse
 INVARIANT ExcusesOnlyWithDeviation
 POSTCONDITION Export
 ALIAS DebugAlias
